@@ -868,7 +868,7 @@ def _c19() -> List[Obl]:
                            tier="quick" if w == "u8" else "thorough", kind="bounded", bound="backend window K=2 words", only=r"contract|c08",
                            fns=[f"BufBitReader<{E},_<{w}>>::copy_to"], confirm=f"obl_c08::rd_{el}::u8_::c08_copy_to_confirm"))
             out.append(Obl(id=f"c19.no_copy_impls.copy_to.{E}.{w}", prop="C19", engine="kani", target=f"obl_c08::rd_{el}::{w}_::c08_copy_to_k2", features="no_copy_impls",
-                           tier="quick" if (w == "u8" and E == "BE") else "thorough", kind="bounded", bound="backend window K=2 words",
+                           tier="thorough", kind="bounded", bound="backend window K=2 words",
                            fns=[f"BitRead::copy_to (default) on BufBitReader<{E},_<{w}>>"]))
         for w in ("u8", "u64"):
             out.append(Obl(id=f"c19.checks.copy_from.{E}.{w}", prop="C19", engine="kani", target=f"obl_c08::wr_{el}::{w}_::c08_copy_from", features="checks",
